@@ -5,3 +5,4 @@ import RSVerif.Properties.C06
 #print axioms RS.errors_truthful_dec
 #print axioms RS.valid_use_succeeds
 #print axioms RS.oneshot_truthful
+#print axioms RS.flat_memory_panic_free_iff
